@@ -884,6 +884,29 @@ func (c *Connector) SnapshotAll() *RemoteState {
 	return st
 }
 
+// Summary renders a remote state (mailbox names, and which message is where) for comparison.
+func (st *RemoteState) Summary() string {
+	var lines []string
+
+	for id, name := range st.mailboxes {
+		lines = append(lines, fmt.Sprintf("mailbox %s = %s", id, strings.Join(name, "/")))
+	}
+
+	for id, m := range st.messages {
+		var boxes []string
+		for mb := range m.Mailboxes {
+			boxes = append(boxes, string(mb))
+		}
+
+		sort.Strings(boxes)
+		lines = append(lines, fmt.Sprintf("message %s in %v", id, boxes))
+	}
+
+	sort.Strings(lines)
+
+	return strings.Join(lines, "\n")
+}
+
 func (c *Connector) RestoreAll(st *RemoteState) {
 	c.RestoreMailboxes(st.mailboxes)
 
